@@ -1,3 +1,224 @@
-//! C13 — not built yet.
+//! C13 — standard-form conversion preserves the problem: `LinearModel::into_standard_form`
+//! (`to_standard_form`, `normalize_constraint`, `EqualityConstraint::new`, `StandardLinearModel::new`).
 use crate::case::Case;
-pub fn generate(_seed: u64, _n: usize, _thorough: bool, _corpus: Option<&str>) -> Vec<Case> { vec![] }
+use crate::gen_std::{self, DataClass, LpSpec, VKind};
+use crate::rng::Rng;
+use crate::sx;
+use indexmap::IndexMap;
+use rooc::model_transformer::DomainVariable;
+use rooc::{Comparison, InputSpan, LinearConstraint, LinearModel, OptimizationType, SolverError, VariableType};
+
+pub fn std_sx(v: &rooc::verif_hooks::StandardView) -> String {
+    let mut s = String::from("(std (vars");
+    for n in &v.variables { s.push(' '); s.push_str(&sx::q(n)); }
+    s.push_str(") (obj");
+    for c in &v.objective { s.push(' '); s.push_str(&gen_std::num(*c)); }
+    s.push_str(&format!(") {} {} (rows", gen_std::num(v.objective_offset), if v.flip_objective { "flip" } else { "noflip" }));
+    for (cs, rhs) in &v.rows {
+        s.push_str(&format!(" (({}) {})", gen_std::nums(cs), gen_std::num(*rhs)));
+    }
+    s.push_str("))");
+    s
+}
+
+pub fn err_name(e: &SolverError) -> &'static str {
+    match e {
+        SolverError::InvalidDomain { .. } => "InvalidDomain",
+        SolverError::TooLarge { .. } => "TooLarge",
+        SolverError::DidNotSolve => "DidNotSolve",
+        SolverError::Unbounded => "Unbounded",
+        SolverError::Infeasible => "Infeasible",
+        SolverError::Other(_) => "Other",
+        SolverError::LimitReached => "LimitReached",
+        SolverError::UnimplementedOptimizationType { .. } => "UnimplementedOptimizationType",
+        SolverError::UnavailableComparison { .. } => "UnavailableComparison",
+    }
+}
+
+fn show(m: &LinearModel) -> String {
+    let dom = m.variables().iter().map(|v| match m.domain().get(v) { Some(d) => format!("{} as {}", v, d.get_type()), None => format!("{} (undeclared)", v) }).collect::<Vec<_>>().join(", ");
+    let rows = m.constraints().iter().map(|c| format!("{:?} {} {}", c.coefficients(), c.constraint_type(), c.rhs())).collect::<Vec<_>>().join("; ");
+    format!("{} {:?} + {} s.t. {} ; {}", m.optimization_type(), m.objective(), m.objective_offset(), rows, dom)
+}
+
+/// oracle sampling effort (points per direction); raised in the thorough tier
+pub static EFFORT: std::sync::atomic::AtomicUsize = std::sync::atomic::AtomicUsize::new(100);
+pub fn one(m: &LinearModel, tol: f64, mut tags: Vec<String>) -> Case { one_effort(m, tol, EFFORT.load(std::sync::atomic::Ordering::Relaxed), &mut tags) }
+pub fn one_effort(m: &LinearModel, tol: f64, effort: usize, tags: &mut Vec<String>) -> Case {
+    let mut tags = std::mem::take(tags);
+    let lin = sx::lin_model(m);
+    let mut c = Case::default();
+    c.req = format!("standardize {} {}", gen_std::num(tol), lin);
+    c.show = show(m);
+    let mm = m.clone();
+    let res = std::panic::catch_unwind(move || mm.into_standard_form());
+    match res {
+        Err(_) => { c.imp = "(err panic)".into(); tags.push("result:panic".into()); }
+        Ok(Err(e)) => { c.imp = format!("(err {})", err_name(&e)); tags.push(format!("result:err-{}", err_name(&e))); }
+        Ok(Ok(s)) => {
+            let v = rooc::verif_hooks::standard_view(&s);
+            let ssx = std_sx(&v);
+            c.imp = format!("(ok {})", ssx);
+            // the property quantifies over linear MODELS: rows and objective as long as the variable list,
+            // every variable declared.  Ragged inputs (only constructible through `new_from_parts`) are
+            // compared with the model but have no meaning the oracle could check.
+            let nv = m.variables().len();
+            let well_formed = m.objective().len() == nv && m.constraints().iter().all(|r| r.coefficients().len() == nv);
+            if well_formed { c.oracle = format!("check-std {} {} {} {}", gen_std::num(tol), effort, lin, ssx); } else { tags.push("input:ragged".into()); }
+            tags.push("result:ok".into());
+            // which rules fired
+            let nfree = m.variables().iter().filter(|n| matches!(m.domain().get(*n).map(|d| *d.get_type()), Some(VariableType::Real(_, _)))).count();
+            let nslack = v.variables.iter().filter(|n| n.starts_with("$sl_")).count();
+            let nsurplus = v.variables.iter().filter(|n| n.starts_with("$su_")).count();
+            let nbound = v.rows.len() - m.constraints().len();
+            let nflip = m.constraints().iter().filter(|r| rooc::verif_hooks::float_lt_hook(r.rhs(), 0.0)).count();
+            if nfree > 0 { tags.push("rule:free-split".into()); }
+            if nslack > 0 { tags.push("rule:slack".into()); }
+            if nsurplus > 0 { tags.push("rule:surplus".into()); }
+            if nbound > 0 { tags.push("rule:bound-row".into()); }
+            if nflip > 0 { tags.push("rule:rhs-sign-flip".into()); }
+            if v.flip_objective { tags.push("rule:objective-flip".into()); }
+            if m.objective_offset() != 0.0 { tags.push("rule:offset".into()); }
+            // a free variable with a zero coefficient in some row (the positional bookkeeping case)
+            let free_idx: Vec<usize> = m.variables().iter().enumerate().filter(|(_, n)| matches!(m.domain().get(*n).map(|d| *d.get_type()), Some(VariableType::Real(_, _)))).map(|(i, _)| i).collect();
+            if m.constraints().iter().any(|r| free_idx.iter().any(|i| r.coefficients().get(*i) == Some(&0.0))) { tags.push("rule:zero-coef-on-free".into()); }
+            // interleaving: a free variable placed before a non-free one
+            if free_idx.iter().any(|i| (*i + 1..m.variables().len()).any(|j| !free_idx.contains(&j))) { tags.push("rule:free-before-kept".into()); }
+            c.nontrivial = nfree + nslack + nsurplus + nbound + nflip > 0 || v.flip_objective;
+            // shape facts that need no exact arithmetic, checked on the implementation directly
+            if v.rows.iter().any(|(cs, _)| cs.len() != v.variables.len()) || v.objective.len() != v.variables.len() {
+                c.impl_violation = Some("standard form with ragged rows".into());
+                c.sig = Some("ragged".into());
+            }
+        }
+    }
+    c.tags = tags;
+    c
+}
+
+fn spec_tags(s: &LpSpec, stream: &str) -> Vec<String> {
+    let mut t = vec![format!("stream:{}", stream), s.class.tag().to_string(), format!("opt:{}", sx::opt_type(&s.opt))];
+    for k in &s.kinds { let g = k.tag().to_string(); if !t.contains(&g) { t.push(g); } }
+    for (_, c, rhs) in &s.rows {
+        let g = format!("row:{}", sx::cmp(*c)); if !t.contains(&g) { t.push(g); }
+        let g = if *rhs < 0.0 { "rhs:negative" } else if *rhs == 0.0 { "rhs:zero" } else { "rhs:positive" }.to_string();
+        if !t.contains(&g) { t.push(g); }
+    }
+    t.push(format!("size:{}x{}", s.kinds.len(), s.rows.len()));
+    t
+}
+
+/// models that the public constructors allow but the text front-end never produces
+fn malformed(r: &mut Rng, tol: f64, cases: &mut Vec<Case>) {
+    let mk_dom = |names: &[&str], tys: &[VariableType]| {
+        let mut d = IndexMap::new();
+        for (n, t) in names.iter().zip(tys) { d.insert(n.to_string(), DomainVariable::new(*t, InputSpan::default())); }
+        d
+    };
+    let free = VariableType::Real(f64::NEG_INFINITY, f64::INFINITY);
+    let nn = VariableType::NonNegativeReal(0.0, f64::INFINITY);
+    let vars = |ns: &[&str]| ns.iter().map(|s| s.to_string()).collect::<Vec<_>>();
+    let row = |c: Vec<f64>, k: Comparison, rhs: f64| LinearConstraint::new(c, k, rhs);
+    let k = |r: &mut Rng| r.range(-3, 3) as f64;
+    for _ in 0..6 {
+        // short rows under free variables: the index read lands on an appended column or panics
+        let m = LinearModel::new_from_parts(vec![k(r), k(r)], OptimizationType::Min, 0.0,
+            vec![row(vec![k(r)], Comparison::LessOrEqual, k(r)), row(vec![k(r), k(r)], Comparison::Equal, k(r))],
+            vars(&["x", "y"]), mk_dom(&["x", "y"], &[free, free]));
+        cases.push(one(&m, tol, vec!["stream:malformed".into(), "malformed:short-row".into()]));
+        // empty row with a free variable: index out of range
+        let m = LinearModel::new_from_parts(vec![k(r), k(r)], OptimizationType::Max, 1.0,
+            vec![row(vec![], Comparison::GreaterOrEqual, k(r))], vars(&["x", "y"]), mk_dom(&["x", "y"], &[nn, free]));
+        cases.push(one(&m, tol, vec!["stream:malformed".into(), "malformed:empty-row".into()]));
+        // long rows and long objective: truncated by resize
+        let m = LinearModel::new_from_parts(vec![k(r), k(r), k(r), k(r)], OptimizationType::Min, 0.0,
+            vec![row(vec![k(r), k(r), k(r), k(r)], Comparison::LessOrEqual, k(r)), row(vec![k(r), k(r), k(r)], Comparison::Equal, k(r))],
+            vars(&["x", "y"]), mk_dom(&["x", "y"], &[nn, free]));
+        cases.push(one(&m, tol, vec!["stream:malformed".into(), "malformed:long-row".into()]));
+        // short objective
+        let m = LinearModel::new_from_parts(vec![k(r)], OptimizationType::Min, 0.0,
+            vec![row(vec![k(r), k(r)], Comparison::LessOrEqual, k(r))], vars(&["x", "y"]), mk_dom(&["x", "y"], &[nn, free]));
+        cases.push(one(&m, tol, vec!["stream:malformed".into(), "malformed:short-objective".into()]));
+        // variable without a domain entry
+        let m = LinearModel::new_from_parts(vec![k(r), k(r)], OptimizationType::Min, 0.0,
+            vec![row(vec![k(r), k(r)], Comparison::LessOrEqual, k(r))], vars(&["x", "y"]), mk_dom(&["x"], &[nn]));
+        cases.push(one(&m, tol, vec!["stream:malformed".into(), "malformed:undeclared-variable".into()]));
+        // discrete variable in the domain (even if unused)
+        let m = LinearModel::new_from_parts(vec![k(r)], OptimizationType::Min, 0.0,
+            vec![row(vec![k(r)], Comparison::LessOrEqual, k(r))], vars(&["x"]),
+            mk_dom(&["x", "b"], &[nn, if r.chance(1, 2) { VariableType::Boolean } else { VariableType::IntegerRange(0, 5) }]));
+        cases.push(one(&m, tol, vec!["stream:malformed".into(), "malformed:discrete-domain".into()]));
+        // strict comparisons
+        let m = LinearModel::new_from_parts(vec![k(r)], OptimizationType::Min, 0.0,
+            vec![row(vec![k(r)], Comparison::LessOrEqual, k(r)), row(vec![k(r)], if r.chance(1, 2) { Comparison::Less } else { Comparison::Greater }, k(r))],
+            vars(&["x"]), mk_dom(&["x"], &[free]));
+        cases.push(one(&m, tol, vec!["stream:malformed".into(), "malformed:strict-comparison".into()]));
+        // satisfy
+        let m = LinearModel::new_from_parts(vec![0.0], OptimizationType::Satisfy, 0.0,
+            vec![row(vec![k(r)], Comparison::LessOrEqual, k(r))], vars(&["x"]), mk_dom(&["x"], &[nn]));
+        cases.push(one(&m, tol, vec!["stream:malformed".into(), "opt:solve".into()]));
+        // non-finite bounds / data
+        let odd = [f64::NAN, f64::INFINITY, f64::NEG_INFINITY, -0.0][r.below(4)];
+        let m = LinearModel::new_from_parts(vec![k(r), k(r)], OptimizationType::Min, 0.0,
+            vec![row(vec![k(r), k(r)], Comparison::LessOrEqual, if r.chance(1, 2) { odd } else { k(r) })], vars(&["x", "y"]),
+            mk_dom(&["x", "y"], &[VariableType::Real(odd, 3.0), VariableType::NonNegativeReal(odd, f64::INFINITY)]));
+        cases.push(one(&m, tol, vec!["stream:malformed".into(), "malformed:non-finite".into()]));
+        // NonNegativeReal with a negative lower bound (outside the front-end's well-formedness)
+        let m = LinearModel::new_from_parts(vec![k(r), k(r)], OptimizationType::Min, 0.0,
+            vec![row(vec![k(r), k(r)], Comparison::GreaterOrEqual, k(r))], vars(&["x", "y"]),
+            mk_dom(&["x", "y"], &[VariableType::NonNegativeReal(-2.0, 3.0), free]));
+        cases.push(one(&m, tol, vec!["stream:malformed".into(), "malformed:nn-negative-lower".into()]));
+    }
+}
+
+pub fn generate(seed: u64, n: usize, thorough: bool, _corpus: Option<&str>) -> Vec<Case> {
+    let mut r = Rng::new(seed).fork(); // fork: `Rng::new(s+1)` is `Rng::new(s)` shifted by one draw, the fork decorrelates seeds
+    let tol = gen_std::measured_tolerance();
+    let mut cases = vec![];
+    EFFORT.store(if thorough { 400 } else { 100 }, std::sync::atomic::Ordering::Relaxed);
+    // --- the documented example and the classic shapes first
+    {
+        let mut m = LinearModel::new();
+        m.add_variable("x", VariableType::NonNegativeReal(0.0, f64::INFINITY));
+        m.add_variable("y", VariableType::non_negative_real());
+        m.set_objective(vec![1.0, 2.0], OptimizationType::Min);
+        m.add_constraint(vec![1.0, 1.0], Comparison::LessOrEqual, 10.0);
+        cases.push(one(&m, tol, vec!["stream:seed".into()]));
+    }
+    // --- exhaustive over kind patterns (every interleaving), one data draw per pattern
+    let (maxv, maxr, vk): (usize, usize, &[VKind]) = if thorough { (3, 3, &gen_std::VKINDS7[..]) } else { (3, 3, &gen_std::VKINDS4[..]) };
+    for nv in 1..=maxv {
+        for vp in gen_std::patterns(vk, nv) {
+            for nr in 0..=maxr {
+                if thorough && nv == 3 && nr == 3 && !vp.iter().all(|k| gen_std::VKINDS4.contains(k)) { continue; } // 7^3*27 is too many: 4-kind subset at the top size
+                for rp in gen_std::patterns(&gen_std::RKINDS, nr) {
+                    let opt = if r.chance(1, 2) { OptimizationType::Min } else { OptimizationType::Max };
+                    let s = gen_std::spec(&mut r, &vp, &rp, opt, DataClass::SmallInt);
+                    cases.push(one(&gen_std::build(&s), tol, spec_tags(&s, "exhaustive-kinds")));
+                }
+            }
+        }
+    }
+    // --- random beyond, all data classes
+    let classes = [DataClass::SmallInt, DataClass::Dyadic, DataClass::Decimal, DataClass::TolBoundary, DataClass::Extreme];
+    for i in 0..n {
+        let class = classes[i % classes.len()];
+        let s = gen_std::random_spec(&mut r, 5, 5, &gen_std::VKINDS7, class);
+        cases.push(one(&gen_std::build(&s), tol, spec_tags(&s, "random")));
+    }
+    // --- tolerance boundary on the right-hand side specifically (sign normalisation uses float_lt)
+    for p in gen_std::PERTURB.iter().chain([tol, tol * 0.5, tol * 0.999999, tol * 1.000001].iter()) {
+        for sgn in [-1.0, 1.0] {
+            for cmp in gen_std::RKINDS {
+                let mut m = LinearModel::new();
+                m.add_variable("x", VariableType::non_negative_real());
+                m.add_variable("y", VariableType::real());
+                m.set_objective(vec![1.0, -1.0], OptimizationType::Max);
+                m.add_constraint(vec![2.0, 1.0], cmp, sgn * p);
+                cases.push(one(&m, tol, vec!["stream:rhs-tolerance-boundary".into(), DataClass::TolBoundary.tag().into()]));
+            }
+        }
+    }
+    malformed(&mut r, tol, &mut cases);
+    cases
+}
